@@ -35,6 +35,12 @@ func (r *Rng) c09Host() []string {
 		switch r.Intn(8) {
 		case 0:
 			cps = append(cps, strings.Split(r.Pick([]string{"localhost", "LocalHost", "example", "EXAMPLE", "www", "xn--bcher-kva", "XN--bcher-KVA", "1", "0x7f", "127", "com"}), "")...)
+		case 1:
+			// an escape of an escape (one element, spelled as it is or escaped once more): decoding once leaves a '%', a forbidden
+			// domain code point - the host is never what decoding twice would give
+			cps = append(cps, strings.Split(r.Pick([]string{"ex", "a", "1.2.3.", "loca", "0x"}), "")...)
+			cps = append(cps, r.Pick([]string{"%2541", "%2561", "%2534", "%%341", "%25%36%31", "%2531", "%256C"}))
+			cps = append(cps, strings.Split(r.Pick([]string{"mple", "", "lhost", "7f"}), "")...)
 		default:
 			n := 1 + r.Intn(4)
 			for i := 0; i < n; i++ {
@@ -413,6 +419,65 @@ func init() {
 					}
 				}
 			})
+			// reporting is neutral along histories too: the same setter / SearchParams / resolution / clone operations on a URL of
+			// the default parser and on a URL of the reporting parser give the same components after every step (a write-back
+			// of the parameter list, a setter's parser run, a resolution: none may depend on whether errors are recorded)
+			{
+				rep := cfgFromDesc("report")
+				neutral := func(d *Driver, hc histCase, h *implHist, steps []Step, start Obs) {
+					var u *url.Url
+					var err error
+					func() {
+						defer func() { recover() }()
+						if hc.base == nil {
+							u, err = defaultCfg.Parser.Parse(hc.input)
+						} else {
+							u, err = defaultCfg.Parser.ParseRef(*hc.base, hc.input)
+						}
+					}()
+					if err != nil || u == nil {
+						return
+					}
+					g := &implHist{}
+					g.u[0] = u
+					for k, o := range hc.ops {
+						st := g.step(o)
+						if k >= len(steps) {
+							break
+						}
+						for sl, pair := range [][2][]string{{st.A, steps[k].A}, {st.B, steps[k].B}} {
+							a, b := pair[0], pair[1]
+							if len(a) != len(b) {
+								c.Report(Finding{Class: "violation", What: fmt.Sprintf("reporting changes a history: after %s slot %s is %q without reporting, %q with it", o.String(), "AB"[sl:sl+1], a, b), Case: hc.Case(k)})
+								return
+							}
+							if len(a) == nFields {
+								for _, f := range urlFieldsOnly {
+									if a[f] != b[f] {
+										c.Report(Finding{Class: "violation", What: fmt.Sprintf("reporting changes a history: after %s the %s of URL %s is %q without reporting, %q with it", o.String(), fieldNames[f], "AB"[sl:sl+1], a[f], b[f]), Case: hc.Case(k)})
+										return
+									}
+								}
+							}
+						}
+					}
+				}
+				famHist(c, rep, 5000*c.Scale, 7, "sspppqRc", true, allFields, "histories:report", neutral)
+				// queries whose decoded pairs contain code points that are not URL code points: a write-back must not run them
+				// through anything that reports or stops
+				starts := []string{"http://example.com/?b=%5E&c=%7C&a=1", "sc://h/?x=%7B%7D&y=%60", "http://h/?q=a%20b&r=%5C", "http://h/?a='&b=%22"}
+				tails := [][]Op{{{K: "o"}}, {{K: "O"}}, {{K: "a", A: "z", B: "^|"}}, {{K: "i", W: 0}}, {{K: "t", A: "a", B: "{x}"}}, {{K: "d", A: "a"}}}
+				for _, cfg := range []*Cfg{rep, cfgFromDesc("fail"), cfgFromDesc("fail+report")} {
+					cfg := cfg
+					c.Pool.Run(len(starts)*len(tails), func(d *Driver, i int) {
+						st, ops := starts[i%len(starts)], tails[i/len(starts)]
+						hc := histCase{cfg, nil, st, ops, "write-back:" + cfg.Desc, i}
+						if h, steps, so := c.cmpHist(d, cfg, nil, st, ops, allFields, "write-back:"+cfg.Desc, i); h != nil && cfg == rep {
+							neutral(d, hc, h, steps, so) // (fail mode may stop a setter: only compared with the model)
+						}
+					})
+				}
+			}
 			// the same relations for canonicalization profiles, whose Parse may run the parser twice (default scheme): what the
 			// first, failed run trimmed or removed must still be reported / rejected by the run that succeeds
 			{
@@ -556,6 +621,24 @@ func init() {
 					})
 				} else {
 					o3 = bo
+				}
+				// the base VALUE can be used again and again: after a result obtained from it has been changed (every removal, the
+				// steps that edit in place), resolving the same reference against it still gives what the string routes give
+				if B != nil && o3.Kind == "U" && i%2 == 0 {
+					o4 := guard(func() Obs {
+						r1, err := B.Parse(ref)
+						if err != nil {
+							return implObs(nil, err)
+						}
+						r1.SetHash("")
+						r1.SetSearch("")
+						r1.SetPathname("/changed")
+						r1.SetHost("changed.example")
+						return implObs(B.Parse(ref))
+					})
+					if o4.String() != o3.String() {
+						c.Report(Finding{Class: "violation", What: fmt.Sprintf("resolving against a base value gives another result after an earlier result of the same resolution was changed: first %s ; then %s", o3.String(), o4.String()), Case: cs})
+					}
 				}
 				if o1.String() != o2.String() || (b != "" && o1.String() != o3.String()) {
 					c.Report(Finding{Class: "violation", What: fmt.Sprintf("the three ways of resolving disagree: Parser.ParseRef %s ; url.ParseRef %s ; base.Parse %s", o1.String(), o2.String(), o3.String()), Case: cs})
